@@ -64,7 +64,7 @@ def path_toggle(c, job):
     import robotpy_ext.control.toggle as tg
     import wpilib
 
-    tg.float = sx.sym_float
+    tg.float = sx.FloatShadow
     env = Env(c)
     wpilib.ENV = env
     j = wpilib.Joystick(0)
@@ -119,7 +119,7 @@ def path_debouncer(c, job):
     import robotpy_ext.control.button_debouncer as bd
     import wpilib
 
-    bd.float = sx.sym_float
+    bd.float = sx.FloatShadow
     env = Env(c)
     wpilib.ENV = env
     j = wpilib.Joystick(0)
@@ -200,7 +200,7 @@ def path_watchdog(c, job):
     import robotpy_ext.misc.simple_watchdog as wd
     import wpilib
 
-    wd.int = sx.sym_int
+    wd.int = sx.IntShadow
     env = Env(c, us=True)
     wpilib.ENV = env
     log = RecLogger(env)
@@ -277,7 +277,7 @@ def path_step(c, job):
     elif kind == "debouncer":
         import robotpy_ext.control.button_debouncer as bd
 
-        bd.float = sx.sym_float
+        bd.float = sx.FloatShadow
         env = Env(c)
         wpilib.ENV = env
         j = wpilib.Joystick(0)
@@ -294,7 +294,7 @@ def path_step(c, job):
     elif kind == "steady":
         import robotpy_ext.control.toggle as tg
 
-        tg.float = sx.sym_float
+        tg.float = sx.FloatShadow
         env = Env(c)
         wpilib.ENV = env
         j = wpilib.Joystick(0)
@@ -373,7 +373,7 @@ class C19(Spec):
             import robotpy_ext.control.button_debouncer as bd
             import wpilib
 
-            bd.float = sx.sym_float
+            bd.float = sx.FloatShadow
             env = Env(c)
             wpilib.ENV = env
             j = wpilib.Joystick(0)
